@@ -36,11 +36,24 @@ pub struct Scenario {
     /// for the single-thread buffer and context)
     #[serde(default)]
     pub empty_fill_first: bool,
+    /// index of the data block that is `tail` samples long (None = the last one): a read shorter than the
+    /// block size that is followed by more reads
+    #[serde(default)]
+    pub short_at: Option<usize>,
 }
 
 impl Scenario {
     pub fn nblocks(&self) -> usize {
         self.script.iter().filter(|r| matches!(r, Read::Data { .. })).count()
+    }
+    /// length of data block `i` in inter-channel samples
+    pub fn block_len(&self, i: usize) -> usize {
+        let short = self.short_at.unwrap_or(self.nblocks().saturating_sub(1));
+        if self.tail > 0 && i == short {
+            self.tail
+        } else {
+            self.bs
+        }
     }
 }
 
@@ -127,8 +140,8 @@ impl Source for ScriptSource {
                 Ok(0)
             }
             Read::Data { valid } => {
-                let last = self.block_no + 1 == self.sc.nblocks();
-                let n = if last && self.sc.tail > 0 { self.sc.tail } else { block_size };
+                let _ = block_size;
+                let n = self.sc.block_len(self.block_no);
                 let blk = block(&self.sc, self.block_no, valid, n);
                 self.block_no += 1;
                 if self.sc.empty_fill_first {
@@ -231,7 +244,7 @@ pub fn reference_framewise(sc: &Scenario) -> Option<Vec<u8>> {
     let mut ctx = Context::new(sc.bps, sc.ch);
     let nb = sc.nblocks();
     for i in 0..nb {
-        let n = if i + 1 == nb && sc.tail > 0 { sc.tail } else { sc.bs };
+        let n = sc.block_len(i);
         let blk = block(sc, i, true, n);
         fb.fill_interleaved(&blk).ok()?;
         ctx.fill_interleaved(&blk).ok()?;
